@@ -41,6 +41,15 @@ Definition zlenT {A} (l : list A) : Z := zlen_from 0 l.
 Definition window (L : layout) (bs : list Z) : list Z :=
   match layout_size L with Some n => firstn n bs | None => bs end.
 
+(* the SysV hash table of the 64-bit Alpha and s390x psABIs has 64-bit entries (everywhere else
+   32-bit words: Spec/ElfGabi.v spec_Elf_Hash); structs.py _create_elf_hash.  Gen/ElfLayouts.v
+   carries the common layout only, so this one is written here, for the specification and the
+   model alike *)
+Definition wide_hash_machines : list string := ["EM_ALPHA"; "EM_S390"].
+Definition Elf_Hash_wide (le : bool) : layout :=
+  [ ("nbuckets", KU le 8); ("nchains", KU le 8);
+    ("buckets", KArr (CField "nbuckets") le 8); ("chains", KArr (CField "nchains") le 8) ].
+
 (* ------------------------------------------------------------------ containers *)
 (* a field of a parsed construct Container: int, bytes (Array of bytes / padding),
    list of ints, or the name an Enum adapter substituted *)
@@ -106,6 +115,9 @@ Definition field_table (b : binds) (f : string) : list (Z * string) :=
    "<raw>" for every number without a name *)
 Definition machine_key (m : hval) : string :=
   match m with HName s => s | _ => "<raw>" end.
+
+Definition hash_is_wide (is64 : bool) (machine : hval) : bool :=
+  is64 && existsb (String.eqb (machine_key machine)) wide_hash_machines.
 
 Definition table_id_for (tbl : list (string * string)) (key : string) : string :=
   match assoc_str tbl key with
